@@ -22,11 +22,11 @@ Qed.
 
 (* induction along the first element of the context list: the only recursion process_error performs *)
 Lemma verr_ind_first (P : verr -> Prop) :
-  (forall k vv i st sp pt p m, P (VErr k vv i st sp pt p m [])) ->
-  (forall k vv i st sp pt p m c cs, P c -> P (VErr k vv i st sp pt p m (c :: cs))) ->
+  (forall k vv i st sp pt pts p m, P (VErr k vv i st sp pt pts p m [])) ->
+  (forall k vv i st sp pt pts p m c cs, P c -> P (VErr k vv i st sp pt pts p m (c :: cs))) ->
   forall e, P e.
 Proof.
-  intros H0 H1. fix IH 1. intros [k vv i st sp pt p m [|c cs]].
+  intros H0 H1. fix IH 1. intros [k vv i st sp pt pts p m [|c cs]].
   - apply H0.
   - apply H1. apply IH.
 Qed.
@@ -58,14 +58,14 @@ Qed.
 Lemma process_error_msg_nonempty : forall e le, process_error e = Lib le -> msg_nonempty (err_msg le) = true.
 Proof.
   apply (verr_ind_first (fun e => forall le, process_error e = Lib le -> msg_nonempty (err_msg le) = true)).
-  - intros k vv i st sp pt p m le H. cbn in H.
+  - intros k vv i st sp pt pts p m le H. cbn in H.
     destruct k; try (inversion H; subst; cbn [err_msg];
                      first [reflexivity | apply m_props_ne | apply m_bound_ne | apply m_length_ne]).
     + destruct (is_false vv); inversion H; reflexivity.
     + destruct st; inversion H. cbn [err_msg]. apply m_type_ne.
     + eapply required_outcome_msg; eauto.
     + destruct (iter_json vv); inversion H. reflexivity.
-  - intros k vv i st sp pt p m c cs IH le H. cbn in H.
+  - intros k vv i st sp pt pts p m c cs IH le H. cbn in H.
     destruct k; try (inversion H; subst; cbn [err_msg];
                      first [reflexivity | apply m_props_ne | apply m_bound_ne | apply m_length_ne]).
     + destruct (is_false vv); inversion H; reflexivity.
@@ -83,10 +83,10 @@ Proof.
 Qed.
 
 (* a well-formed record is never translated into a non-library exception *)
-Lemma process_error_wf_lib : forall e, wf_verr e = true -> exists le, process_error e = Lib le.
+Lemma process_error_wf_lib pm : forall e, wf_verr pm e = true -> exists le, process_error e = Lib le.
 Proof.
-  apply (verr_ind_first (fun e => wf_verr e = true -> exists le, process_error e = Lib le)).
-  - intros k vv i st sp pt p m H. cbn in H. cbn [process_error].
+  apply (verr_ind_first (fun e => wf_verr pm e = true -> exists le, process_error e = Lib le)).
+  - intros k vv i st sp pt pts p m H. cbn in H. cbn [process_error].
     destruct k; try (eexists; reflexivity).
     + destruct (is_false vv); eexists; reflexivity.
     + destruct st; try discriminate. eexists; reflexivity.
@@ -94,7 +94,7 @@ Proof.
       apply andb_true_iff in H as [H1 H2]. unfold required_outcome. cbn [iter_json].
       rewrite (is_str_hashable _ H1). eexists; reflexivity.
     + destruct vv; try discriminate. eexists; reflexivity.
-  - intros k vv i st sp pt p m c cs IH H. cbn in H. cbn [process_error].
+  - intros k vv i st sp pt pts p m c cs IH H. cbn in H. cbn [process_error].
     destruct k; try (eexists; reflexivity).
     + destruct (is_false vv); eexists; reflexivity.
     + destruct st; try discriminate. eexists; reflexivity.
@@ -106,22 +106,22 @@ Proof.
     + destruct vv; try discriminate. apply andb_true_iff in H as [H1 _]. apply IH. exact H1.
 Qed.
 
-Theorem process_error_total_lib e :
-  wf_verr e = true -> exists le, process_error e = Lib le /\ msg_nonempty (err_msg le) = true.
+Theorem process_error_total_lib pm e :
+  wf_verr pm e = true -> exists le, process_error e = Lib le /\ msg_nonempty (err_msg le) = true.
 Proof.
-  intros H. destruct (process_error_wf_lib e H) as [le Hle]. exists le. split; auto.
+  intros H. destruct (process_error_wf_lib pm e H) as [le Hle]. exists le. split; auto.
   eapply process_error_msg_nonempty; eauto.
 Qed.
 
 (* ------------------------------------------------------------------------------------------------ required *)
-Theorem required_exposes_key e :
-  wf_verr e = true -> v_kind e = VRequired ->
+Theorem required_exposes_key pm e :
+  wf_verr pm e = true -> v_kind e = VRequired ->
   exists k kvs ks m,
     v_inst e = JObj kvs /\ v_value e = JArr ks /\
     process_error e = Lib (EMissingKey (Some (JStr k)) m) /\
     In (JStr k) ks /\ ~ In k (keys kvs).
 Proof.
-  destruct e as [k vv i st sp pt p m ctx]. cbn [v_kind v_inst v_value]. intros H Hk. subst k.
+  destruct e as [k vv i st sp pt pts p m ctx]. cbn [v_kind v_inst v_value]. intros H Hk. subst k.
   cbn in H. destruct i; try discriminate. destruct vv; try discriminate.
   apply andb_true_iff in H as [H1 H2].
   destruct (existsb_hd_filter _ _ H2) as [x [Hh [Hi Hx]]].
@@ -133,14 +133,14 @@ Proof.
 Qed.
 
 (* ------------------------------------------------------------------------------------------------ type *)
-Theorem type_exposes_value_and_type e :
-  wf_verr e = true -> v_kind e = VType ->
+Theorem type_exposes_value_and_type pm e :
+  wf_verr pm e = true -> v_kind e = VType ->
   exists t ts m,
     v_sty e = Some t /\ type_decl t = Some ts /\
     process_error e = Lib (EInvalidType (v_inst e) t m) /\
     existsb (has_type (v_inst e)) ts = false.
 Proof.
-  destruct e as [k vv i st sp pt p m ctx]. cbn [v_kind v_inst v_sty]. intros H Hk. subst k.
+  destruct e as [k vv i st sp pt pts p m ctx]. cbn [v_kind v_inst v_sty]. intros H Hk. subst k.
   cbn in H. destruct st as [t|]; try discriminate. destruct (type_decl t) as [ts|] eqn:Ht; try discriminate.
   apply andb_true_iff in H as [_ H2]. apply negb_true_iff in H2.
   exists t, ts. eexists. repeat split; eauto.
@@ -225,8 +225,238 @@ Proof.
 Qed.
 
 (* ------------------------------------------------------------------------------------------------ unknown keys *)
-Theorem additional_exposes_key_partial e :
-  wf_verr e = true -> v_kind e = VAdditional -> v_spat e = false ->
+Lemma extras_pat_nil pm inst sp : extras_pat pm inst sp [] = extras_of inst sp.
+Proof.
+  unfold extras_pat, extras_of. destruct inst; auto. apply filter_ext. intros k.
+  unfold pat_matched. cbn. apply andb_true_r.
+Qed.
+
+Lemma prefix_str_app p : forall m, prefix_str p m = true -> exists t, m = p ++ t.
+Proof.
+  induction p as [|x p IH]; intros m H.
+  - exists m. reflexivity.
+  - destruct m as [|y m]; cbn in H; try discriminate. apply andb_true_iff in H as [H1 H2].
+    apply N.eqb_eq in H1. subst y. destruct (IH m H2) as [t Et]. exists t. rewrite Et. reflexivity.
+Qed.
+
+(* after a non-empty list of identifier-like keys the scanner has returned exactly those keys, whatever follows *)
+Lemma scan_join_tail ks tail : forallb ident ks = true -> ks <> [] ->
+  scan Idle (join_reprs ks ++ tail) = ks ++ scan AfterClose tail.
+Proof.
+  intros H Hne. rewrite scan_app. destruct (scan_join ks H) as [E1 E2]. rewrite E1, E2.
+  destruct ks; [contradiction|reflexivity].
+Qed.
+
+(* on every message that starts the way jsonschema starts it with patternProperties, the regular expression returns
+   the listed keys first; what follows them comes from the text after the keys (the patterns) *)
+Theorem findall_addl_pat_head ks tail : forallb ident ks = true -> ks <> [] ->
+  exists rest, findall_keys (addl_pat_head ks ++ tail) = ks ++ rest.
+Proof.
+  intros H Hne. unfold findall_keys, addl_pat_head. rewrite <- !app_assoc. rewrite scan_join_tail by assumption.
+  eexists. reflexivity.
+Qed.
+
+(* ------------------------------------------------------------------------------------------------
+   the complete result of the regular expression on the patternProperties message, for patterns whose repr is the
+   plain one: printable ASCII without single quote and backslash (double quotes allowed: without a single quote in the
+   string Python still delimits with single quotes).  Such a pattern is returned iff it is identifier-like. *)
+Definition plain_char (c : N) : bool :=
+  N.leb 32 c && N.ltb c 127 && negb (N.eqb c c_quote) && negb (N.eqb c c_bslash).
+Definition plain_pat (p : str) : bool := forallb plain_char p.
+
+Lemma repr_char_plain c : plain_char c = true -> repr_char c_quote c = [c].
+Proof.
+  unfold plain_char, repr_char, c_quote, c_bslash. intros H.
+  apply andb_true_iff in H as [H H4]. apply andb_true_iff in H as [H H3]. apply andb_true_iff in H as [H1 H2].
+  apply negb_true_iff in H3. apply negb_true_iff in H4. apply N.leb_le in H1. apply N.ltb_lt in H2.
+  unfold c_quote in H3. unfold c_bslash in H4. rewrite H3, H4. cbn [orb].
+  assert (E9 : N.eqb c 9 = false) by (apply N.eqb_neq; lia).
+  assert (E10 : N.eqb c 10 = false) by (apply N.eqb_neq; lia).
+  assert (E13 : N.eqb c 13 = false) by (apply N.eqb_neq; lia).
+  assert (E32 : N.ltb c 32 = false) by (apply N.ltb_ge; lia).
+  assert (E127 : N.eqb c 127 = false) by (apply N.eqb_neq; lia).
+  rewrite E9, E10, E13, E32, E127. reflexivity.
+Qed.
+
+Lemma plain_char_facts c : plain_char c = true -> N.ltb c 128 = true /\ N.eqb c_quote c = false.
+Proof.
+  unfold plain_char. intros H.
+  apply andb_true_iff in H as [H H4]. apply andb_true_iff in H as [H H3]. apply andb_true_iff in H as [H1 H2].
+  apply negb_true_iff in H3. apply N.ltb_lt in H2. split.
+  - apply N.ltb_lt. lia.
+  - rewrite N.eqb_sym. exact H3.
+Qed.
+
+Lemma py_repr_plain_pat p : plain_pat p = true -> py_repr p = Some (py_repr_plain p).
+Proof.
+  intros H. unfold py_repr, py_repr_plain.
+  assert (Ha : is_ascii p = true).
+  { unfold is_ascii. apply forallb_forall. intros c Hc. unfold plain_pat in H. rewrite forallb_forall in H.
+    apply (plain_char_facts c (H c Hc)). }
+  assert (Hq : has_char c_quote p = false).
+  { unfold has_char. apply not_true_is_false. intros E. apply existsb_exists in E as [c [Hc Ec]].
+    unfold plain_pat in H. rewrite forallb_forall in H. destruct (plain_char_facts c (H c Hc)) as [_ F].
+    rewrite F in Ec. discriminate. }
+  rewrite Ha, Hq. cbn [andb]. f_equal. f_equal.
+  assert (Hf : flat_map (repr_char c_quote) p = p).
+  { unfold plain_pat in H. induction p as [|c p IH]; [reflexivity|]. cbn in H. apply andb_true_iff in H as [Hc Hp].
+    cbn [flat_map]. rewrite (repr_char_plain c Hc), IH by (try exact Hp; clear IH; unfold is_ascii in Ha; cbn in Ha;
+      apply andb_true_iff in Ha as [_ Ha]; try exact Ha;
+      unfold has_char in Hq; cbn in Hq; apply orb_false_iff in Hq as [_ Hq]; exact Hq). reflexivity. }
+  rewrite Hf. reflexivity.
+Qed.
+
+Lemma py_reprs_plain pats : forallb plain_pat pats = true -> py_reprs pats = Some (map py_repr_plain pats).
+Proof.
+  induction pats as [|p r IH]; intros H; [reflexivity|]. cbn in H. apply andb_true_iff in H as [Hp Hr].
+  unfold py_reprs in *. cbn [fold_right map]. rewrite (IH Hr), (py_repr_plain_pat p Hp). reflexivity.
+Qed.
+
+Definition no_quote (p : str) : bool := forallb (fun c => negb (N.eqb c c_quote)) p.
+Definition neutral (st : sstate) : Prop := st = Idle \/ st = SawU \/ st = AfterClose \/ st = InWord [].
+
+Lemma plain_no_quote p : plain_pat p = true -> no_quote p = true.
+Proof.
+  unfold plain_pat, no_quote. rewrite !forallb_forall. intros H c Hc. specialize (H c Hc). unfold plain_char in H.
+  apply andb_true_iff in H as [H _]. apply andb_true_iff in H as [_ H]. exact H.
+Qed.
+
+(* outside a quoted word nothing is returned until the next quote *)
+Lemma scan_quiet s : no_quote s = true -> forall st, st = Idle \/ st = SawU ->
+  scan st s = [] /\ (run st s = Idle \/ run st s = SawU).
+Proof.
+  induction s as [|c s IH]; intros H st Hst; [cbn; auto|].
+  cbn in H. apply andb_true_iff in H as [Hc Hs]. apply negb_true_iff in Hc.
+  assert (E : step st c = (step_idle c, None)) by (destruct Hst; subst; reflexivity).
+  cbn [scan run]. rewrite E. cbn [fst].
+  assert (Hn : step_idle c = Idle \/ step_idle c = SawU).
+  { unfold step_idle. destruct (N.eqb c c_u); auto. rewrite Hc. auto. }
+  apply IH; assumption.
+Qed.
+
+Lemma wordchar_quote : wordchar c_quote = false. Proof. reflexivity. Qed.
+
+(* from "inside the quotes, nothing read yet": one quoted quote-free string *)
+Lemma scan_quoted_body p : no_quote p = true ->
+  scan (InWord []) (p ++ [c_quote]) = (if ident p then [p] else []) /\
+  run (InWord []) (p ++ [c_quote]) = (if ident p then AfterClose else InWord []).
+Proof.
+  intros Hq. destruct (ident p) eqn:Hid.
+  - unfold ident in Hid. destruct p as [|c0 p0] eqn:Ep; try discriminate. rewrite <- Ep in *.
+    assert (Hne : rev p <> []).
+    { intros E. apply (f_equal (@rev N)) in E. rewrite rev_involutive in E. subst p. cbn in E. discriminate. }
+    rewrite scan_app, run_app. destruct (scan_word p [] Hid) as [E1 E2]. rewrite E1, E2, app_nil_r.
+    cbn [app scan run step]. rewrite wordchar_quote. cbv iota. rewrite N.eqb_refl.
+    destruct (rev p) eqn:Er; [contradiction|]. cbn [fst]. rewrite <- Er, rev_involutive. split; reflexivity.
+  - (* p is empty or has a first non-word character *)
+    assert (G : forall acc, forallb wordchar p = false ->
+                scan (InWord acc) (p ++ [c_quote]) = [] /\ run (InWord acc) (p ++ [c_quote]) = InWord []).
+    { clear Hid. induction p as [|c p IH]; intros acc Hw; [discriminate|].
+      cbn in Hq. apply andb_true_iff in Hq as [Hc Hp]. apply negb_true_iff in Hc.
+      cbn [app scan run step]. destruct (wordchar c) eqn:Wc.
+      - cbn [fst]. cbn in Hw. rewrite Wc in Hw. cbn in Hw. apply IH; assumption.
+      - rewrite Hc. cbn [fst].
+        rewrite scan_app, run_app. destruct (scan_quiet p Hp Idle (or_introl eq_refl)) as [Q1 Q2]. rewrite Q1.
+        cbn [app]. destruct Q2 as [Q2|Q2]; rewrite Q2; split; reflexivity. }
+    destruct p as [|c p].
+    + split; reflexivity.
+    + apply G. unfold ident in Hid. exact Hid.
+Qed.
+
+Lemma scan_quoted p st : no_quote p = true -> neutral st ->
+  scan st (py_repr_plain p) = (if ident p then [p] else []) /\
+  run st (py_repr_plain p) = (if ident p then AfterClose else InWord []).
+Proof.
+  intros Hq Hst. unfold py_repr_plain.
+  assert (E : step st c_quote = (InWord [], None)) by (destruct Hst as [H|[H|[H|H]]]; subst; reflexivity).
+  cbn [scan run]. rewrite E. cbn [fst]. apply scan_quoted_body. exact Hq.
+Qed.
+
+Lemma scan_sep st : st = AfterClose \/ st = InWord [] ->
+  scan st [c_comma; 32%N] = [] /\ run st [c_comma; 32%N] = Idle.
+Proof. intros [H|H]; subst; split; reflexivity. Qed.
+
+Lemma scan_join_pats pats : forallb no_quote pats = true -> forall st, neutral st ->
+  scan st (join_comma (map py_repr_plain pats)) = filter ident pats.
+Proof.
+  induction pats as [|p r IH]; intros H st Hst; [reflexivity|].
+  cbn in H. apply andb_true_iff in H as [Hp Hr]. destruct (scan_quoted p st Hp Hst) as [E1 E2].
+  destruct r as [|p2 r'].
+  - cbn [map join_comma filter]. rewrite E1. destruct (ident p); reflexivity.
+  - change (join_comma (map py_repr_plain (p :: p2 :: r')))
+      with (py_repr_plain p ++ [c_comma; 32%N] ++ join_comma (map py_repr_plain (p2 :: r'))).
+    rewrite scan_app, E1, E2, scan_app.
+    assert (Hs : (if ident p then AfterClose else InWord []) = AfterClose \/ (if ident p then AfterClose else InWord []) = InWord [])
+      by (destruct (ident p); auto).
+    destruct (scan_sep _ Hs) as [S1 S2]. rewrite S1, S2. cbn [app].
+    rewrite (IH Hr Idle (or_introl eq_refl)). cbn [filter]. destruct (ident p); reflexivity.
+Qed.
+
+Lemma scan_verb (b : bool) st : st = Idle \/ st = AfterClose ->
+  scan st ((if b then codes " does" else codes " do") ++ codes " not match any of the regexes: ") = [] /\
+  run st ((if b then codes " does" else codes " do") ++ codes " not match any of the regexes: ") = Idle.
+Proof. intros [H|H]; subst; destruct b; vm_compute; split; reflexivity. Qed.
+
+Theorem findall_addl_message_pat ks pats :
+  forallb ident ks = true -> forallb plain_pat pats = true ->
+  exists m, addl_message_pat ks pats = Some m /\ findall_keys m = ks ++ filter ident pats.
+Proof.
+  intros Hk Hp. unfold addl_message_pat. rewrite (py_reprs_plain pats Hp). eexists. split; [reflexivity|].
+  unfold findall_keys, addl_pat_head. rewrite <- !app_assoc. rewrite scan_app.
+  destruct (scan_join ks Hk) as [E1 E2]. rewrite E1, E2.
+  rewrite app_assoc, scan_app.
+  assert (Hst : match ks with [] => Idle | _ => AfterClose end = Idle \/ match ks with [] => Idle | _ => AfterClose end = AfterClose)
+    by (destruct ks; auto).
+  destruct (scan_verb (Nat.eqb (List.length ks) 1) _ Hst) as [V1 V2]. rewrite V1, V2. cbn [app].
+  f_equal. apply scan_join_pats; [|left; reflexivity].
+  apply forallb_forall. intros p Hin. rewrite forallb_forall in Hp. apply plain_no_quote. apply Hp. exact Hin.
+Qed.
+
+Lemma sort_strs_nonempty l : l <> [] -> sort_strs l <> [].
+Proof.
+  destruct l as [|x l]; [contradiction|]. intros _ E.
+  assert (H : In x (sort_strs (x :: l))) by (apply sort_strs_In; left; reflexivity). rewrite E in H. contradiction.
+Qed.
+
+Theorem additional_exposes_key_patterns pm e :
+  wf_verr pm e = true -> v_kind e = VAdditional ->
+  forallb ident (extras_pat pm (v_inst e) (v_sprops e) (v_spats e)) = true ->
+  exists k kvs m rest,
+    v_inst e = JObj kvs /\
+    process_error e = Lib (EInvalidKey (Some k) m) /\
+    In k (keys kvs) /\ ~ In k (v_sprops e) /\ pat_matched pm (v_spats e) k = false /\ ident k = true /\
+    hd_error (sort_strs (extras_pat pm (v_inst e) (v_sprops e) (v_spats e))) = Some k /\
+    findall_keys (v_message e) = sort_strs (extras_pat pm (v_inst e) (v_sprops e) (v_spats e)) ++ rest /\
+    (v_spat e = false -> rest = []).
+Proof.
+  destruct e as [kd vv i st sp pt pts p m ctx]. cbn [v_kind v_inst v_spat v_spats v_sprops v_message]. intros H Hk Hid. subst kd.
+  cbn [wf_verr] in H. apply andb_true_iff in H as [H H4]. apply andb_true_iff in H as [H H3].
+  apply andb_true_iff in H as [H1 H2].
+  destruct i; try discriminate. cbv zeta in H4. apply andb_true_iff in H4 as [Hne Hm].
+  rewrite Hid in Hm.
+  set (ex := extras_pat pm (JObj kvs) sp pts) in *.
+  assert (Hex : ex <> []) by (intros E; rewrite E in Hne; discriminate).
+  assert (Hs : forallb ident (sort_strs ex) = true) by (apply sort_strs_forallb; exact Hid).
+  assert (Hsn : sort_strs ex <> []) by (apply sort_strs_nonempty; exact Hex).
+  assert (Hfind : exists rest, findall_keys m = sort_strs ex ++ rest /\ (pt = false -> rest = [])).
+  { unfold addl_msg_ok in Hm. destruct pt.
+    - apply andb_true_iff in Hm as [Hpre _]. apply prefix_str_app in Hpre as [tail Et]. subst m.
+      destruct (findall_addl_pat_head (sort_strs ex) tail Hs Hsn) as [rest Er]. exists rest. split; [exact Er|discriminate].
+    - apply str_eqb_eq in Hm. subst m. exists []. rewrite app_nil_r. split; [apply findall_addl_message; exact Hs|reflexivity]. }
+  destruct Hfind as [rest [Hf Hr]].
+  destruct (sort_strs ex) as [|k r] eqn:Es; [contradiction|].
+  assert (Hin : In k ex) by (apply sort_strs_In; rewrite Es; left; reflexivity).
+  unfold ex, extras_pat in Hin. apply filter_In in Hin as [Hk1 Hk2]. apply andb_true_iff in Hk2 as [Hk2 Hk3].
+  apply negb_true_iff in Hk2. apply negb_true_iff in Hk3.
+  exists k, kvs, m_unknown_keys, rest. repeat split; auto.
+  - cbn [process_error]. rewrite H1, Hf. reflexivity.
+  - intros Hc. apply mem_str_In in Hc. rewrite Hc in Hk2. discriminate.
+  - cbn in Hs. apply andb_true_iff in Hs as [Hs _]. exact Hs.
+Qed.
+
+(* the case without patternProperties (the list of patterns is then empty and no key is matched) *)
+Theorem additional_exposes_key_partial pm e :
+  wf_verr pm e = true -> v_kind e = VAdditional -> v_spat e = false ->
   forallb ident (extras_of (v_inst e) (v_sprops e)) = true ->
   exists k kvs m,
     v_inst e = JObj kvs /\
@@ -234,57 +464,67 @@ Theorem additional_exposes_key_partial e :
     In k (keys kvs) /\ ~ In k (v_sprops e) /\ ident k = true /\
     hd_error (sort_strs (extras_of (v_inst e) (v_sprops e))) = Some k.
 Proof.
-  destruct e as [kd vv i st sp pt p m ctx]. cbn [v_kind v_inst v_spat v_sprops]. intros H Hk Hp Hid. subst kd pt.
-  cbn [wf_verr] in H. apply andb_true_iff in H as [H H3]. apply andb_true_iff in H as [H1 H2].
-  destruct i; try discriminate. cbn [orb] in H3. apply andb_true_iff in H3 as [Hne Hm].
-  rewrite Hid in Hm. apply str_eqb_eq in Hm.
-  set (ex := extras_of (JObj kvs) sp) in *.
-  assert (Hs : forallb ident (sort_strs ex) = true) by (apply sort_strs_forallb; exact Hid).
-  destruct (sort_strs ex) as [|k r] eqn:Es.
-  { destruct ex as [|x ex'] eqn:Ex; try discriminate.
-    assert (In x (sort_strs (x :: ex'))) by (apply sort_strs_In; left; reflexivity). rewrite Es in H. contradiction. }
-  assert (Hin : In k ex) by (apply sort_strs_In; rewrite Es; left; reflexivity).
-  unfold ex, extras_of in Hin. apply filter_In in Hin as [Hk1 Hk2]. apply negb_true_iff in Hk2.
-  exists k, kvs, m_unknown_keys. repeat split; auto.
-  - cbn [process_error]. rewrite H1. subst m. rewrite findall_addl_message by exact Hs. reflexivity.
-  - intros Hc. apply mem_str_In in Hc. rewrite Hc in Hk2. discriminate.
-  - cbn in Hs. apply andb_true_iff in Hs as [Hs _]. exact Hs.
+  intros H Hk Hp Hid.
+  assert (Hps : v_spats e = []).
+  { destruct e as [kd vv i st sp pt pts p m ctx]. cbn [v_kind v_spat v_spats] in *. subst kd pt.
+    cbn [wf_verr] in H. apply andb_true_iff in H as [H _]. apply andb_true_iff in H as [_ H3].
+    destruct pts; [reflexivity|discriminate]. }
+  pose proof (additional_exposes_key_patterns pm e H Hk) as T. rewrite Hps, extras_pat_nil in T.
+  destruct (T Hid) as [k [kvs [m [rest [A [B [C [D [_ [E [F _]]]]]]]]]]].
+  exists k, kvs, m. repeat split; auto.
 Qed.
+
+(* what the premise "there is an unknown key" buys: a record with NO unknown key (jsonschema never raises one: the
+   error is yielded only `elif not aP and extras`) whose message has the patternProperties form exposes a PATTERN *)
+Definition no_unknown_key_error : verr :=
+  VErr VAdditional (JBool false) (JObj [(codes "abc1"%string, JNull)]) None [] true [codes "abc"%string] []
+       (match addl_message_pat [] [codes "abc"%string] with Some m => m | None => [] end) [].
+
+Theorem additional_no_unknown_key_exposes_pattern :
+  let pm := fun _ _ => true in
+  v_kind no_unknown_key_error = VAdditional /\
+  extras_pat pm (v_inst no_unknown_key_error) (v_sprops no_unknown_key_error) (v_spats no_unknown_key_error) = [] /\
+  addl_message_pat [] (v_spats no_unknown_key_error) = Some (v_message no_unknown_key_error) /\
+  process_error no_unknown_key_error = Lib (EInvalidKey (Some (codes "abc"%string)) m_unknown_keys) /\
+  In (codes "abc"%string) (v_spats no_unknown_key_error) /\
+  wf_verr pm no_unknown_key_error = false.
+Proof. vm_compute. repeat split; auto. Qed.
 
 (* ------------------------------------------------------------------------------------------------ validate *)
 Section Validate.
   Variable rxm : N -> str -> bool.
+  Variable pm : list str -> str -> bool.
   Variable js : json -> schema -> js_result.
   (* the contract on jsonschema: it raises ValidationError exactly on non-conforming values, and the record is well-formed *)
-  Hypothesis js_iff : forall v s, js v s = JsOk <-> conforms rxm s v = true.
-  Hypothesis js_wf : forall v s e, js v s = JsError e -> wf_verr e = true.
+  Hypothesis js_iff : forall v s, js v s = JsOk <-> conforms rxm pm s v = true.
+  Hypothesis js_wf : forall v s e, js v s = JsError e -> wf_verr pm e = true.
 
-  Theorem validate_silent_iff_conforms v s : validate js v s = Silent <-> conforms rxm s v = true.
+  Theorem validate_silent_iff_conforms v s : validate js v s = Silent <-> conforms rxm pm s v = true.
   Proof.
     unfold validate. rewrite <- js_iff. destruct (js v s); split; intros H; try reflexivity; discriminate.
   Qed.
 
   Theorem validate_raises_lib_only v s :
-    (validate js v s = Silent /\ conforms rxm s v = true) \/
-    (exists le, validate js v s = Raises (Lib le) /\ msg_nonempty (err_msg le) = true /\ conforms rxm s v = false).
+    (validate js v s = Silent /\ conforms rxm pm s v = true) \/
+    (exists le, validate js v s = Raises (Lib le) /\ msg_nonempty (err_msg le) = true /\ conforms rxm pm s v = false).
   Proof.
     unfold validate. destruct (js v s) as [|e] eqn:E.
     - left. split; auto. apply js_iff. exact E.
-    - right. destruct (process_error_total_lib e (js_wf _ _ _ E)) as [le [H1 H2]].
+    - right. destruct (process_error_total_lib pm e (js_wf _ _ _ E)) as [le [H1 H2]].
       exists le. rewrite H1. repeat split; auto.
-      destruct (conforms rxm s v) eqn:C; auto. apply js_iff in C. rewrite C in E. discriminate.
+      destruct (conforms rxm pm s v) eqn:C; auto. apply js_iff in C. rewrite C in E. discriminate.
   Qed.
 End Validate.
 
 (* the contract is satisfiable: a jsonschema that reports every failure as an untranslated keyword *)
-Definition js_trivial (rxm : N -> str -> bool) (v : json) (s : schema) : js_result :=
-  if conforms rxm s v then JsOk else JsError (VErr VOther JNull v None [] false [] [] []).
+Definition js_trivial (rxm : N -> str -> bool) (pm : list str -> str -> bool) (v : json) (s : schema) : js_result :=
+  if conforms rxm pm s v then JsOk else JsError (VErr VOther JNull v None [] false [] [] [] []).
 
-Lemma js_trivial_contract rxm :
-  (forall v s, js_trivial rxm v s = JsOk <-> conforms rxm s v = true) /\
-  (forall v s e, js_trivial rxm v s = JsError e -> wf_verr e = true).
+Lemma js_trivial_contract rxm pm :
+  (forall v s, js_trivial rxm pm v s = JsOk <-> conforms rxm pm s v = true) /\
+  (forall v s e, js_trivial rxm pm v s = JsError e -> wf_verr pm e = true).
 Proof.
-  split; intros v s; unfold js_trivial; destruct (conforms rxm s v).
+  split; intros v s; unfold js_trivial; destruct (conforms rxm pm s v).
   - split; auto.
   - split; discriminate.
   - discriminate.
@@ -295,8 +535,9 @@ Qed.
    without the draft-4+ contract on `required` the translation escapes with TypeError.  jsonschema's draft-3 `required`
    raises exactly this record for validate({}, {"$schema": draft-03, "properties": {"a": {"required": true}}}). *)
 Definition draft3_required_error : verr :=
-  VErr VRequired (JBool true) (JObj []) None [codes "a"%string] false [] (codes "'a' is a required property"%string) [].
+  VErr VRequired (JBool true) (JObj []) None [codes "a"%string] false [] [] (codes "'a' is a required property"%string) [].
 
 Theorem process_error_total_refuted :
-  exists e, v_kind e = VRequired /\ v_value e = JBool true /\ process_error e = Raw RTypeError /\ wf_verr e = false.
+  exists e, v_kind e = VRequired /\ v_value e = JBool true /\ process_error e = Raw RTypeError /\
+            forall pm, wf_verr pm e = false.
 Proof. exists draft3_required_error. vm_compute. repeat split; reflexivity. Qed.
